@@ -221,6 +221,28 @@ PROPS = {
         level_text="Generated search against an independent signed-distance model with per-join-type inner and outer bounds. Exploration only.",
         level_note="trusts the distance/winding oracle (oracle.hpp, offset_oracle.hpp), g++, rapidcheck",
     ),
+    "C07": dict(
+        bins={"main": dict(tc="gcc", src="prop_C07.cpp", variants=["plain"])},
+        parts=[dict(name="stroke", workers={Q: 14, T: 14}, cases={Q: 500, T: 8000}),
+               dict(name="point", workers={Q: 2, T: 2}, cases={Q: 3000, T: 100000})],
+        rule=("(stroke) mixtures of 1-4 open paths per call (1-point, 2-point and 3-8-point random polylines, self-crossing "
+              "allowed, turning angles >= 10 degrees from reversal, edges >= 2 units) placed in disjoint regions farther apart "
+              "than 2(|delta|f+tol), scales 100..1e5, |delta| 1..0.4R, miter limit 0-5, arc tolerance 0/0.05-3, ReverseSolution; "
+              "each case runs 4 join types x end types Joined/Butt/Square/Round and is judged at ~200-600 integer samples "
+              "(grid + probes near the expected outline) by distance to the polylines: inner bound = trimmed per-segment "
+              "rectangles of half-width |delta|-tol (+ discs at round joins/ends, cap rectangles at square ends, disc or "
+              "square for single points), outer bound = |delta| x max(join factor, cap factor) + tol, and beyond a butt end "
+              "nothing unless another segment is near; metamorphic clauses: result(+delta) == result(-delta) exactly, region "
+              "independent of path direction; independence from the other (distant) paths of the call is implied by judging "
+              "the mixture against the per-path model (and checked exactly for all orders in C12/offset_indep); (point) single "
+              "points become a circle of radius |delta| (vertices within tol) or the square of half-side ceil(|delta|), all "
+              "join x end types. Non-trivial = mixture with a 2-point and a longer path, or a self-crossing polyline"),
+        assumptions=["|delta| >= 1 (single points are dropped by design below 1)", "points inside the tolerance band are not judged",
+                     "a mismatch that disappears for all of |delta| +-0.37, +-0.73 is classified as KF-ENG-a"],
+        technique="property-based testing (rapidcheck): distance-based stroke model with inner/outer bounds + metamorphic relations",
+        level_text="Generated search against an independent distance model of strokes and caps, plus exact metamorphic clauses. Exploration only.",
+        level_note="trusts the stroke model in prop_C07.cpp and oracle.hpp, g++, rapidcheck",
+    ),
     "C02": dict(
         bins={"main": dict(tc="gcc", src="prop_C02.cpp", variants=["plain"])},
         parts=[
